@@ -181,6 +181,16 @@ func runC15(c *core.Ctx) {
 			if strings.Contains(rule, "%d") {
 				rule = fmt.Sprintf(rule, i)
 			}
+			// very short explanations (one byte, one rune, two bytes): length bookkeeping in the
+			// extractor is most fragile there
+			if rng.Intn(3) == 0 {
+				switch classes[p].name {
+				case "cu":
+					rule = "required|" + []string{"x", "y", "ab", "q;"}[rng.Intn(4)]
+				case "zh":
+					rule = "required|" + []string{"必", "填", "必x"}[rng.Intn(3)]
+				}
+			}
 			fields = append(fields, reflect.StructField{Name: fmt.Sprintf("F%d", i), Type: reflect.TypeOf(""), Tag: reflect.StructTag(`valid:"` + rule + `"`)})
 		}
 		for g := 0; g < groups; g++ {
